@@ -480,10 +480,10 @@ func runOnce(c *compiled, viaQuery bool, ctx *simctx.Ctx, input any, vars []any)
 
 type stats struct {
 	phases, pPhases, sPhases int
-	coScheduled             []uint64
-	steps                   int
-	skip                    string
-	timing                  bool
+	coScheduled              []uint64
+	steps                    int
+	skip                     string
+	timing                   bool
 }
 
 func viol(d *Data, class, format string, args ...any) *kernel.Violation {
